@@ -284,6 +284,14 @@ pub fn run_foreign_instance(seed: u64) {
         };
         let _ = f.step(&op, &mut scratch);
     }
+    // instances with this chain's own prefix under each of the other codecs: what they validated or made stays theirs
+    for kind in [ApiKind::Bech32, ApiKind::Bech32m, ApiKind::Plain] {
+        let mut o = World::with_api(kind);
+        let users = o.users.clone();
+        for op in crate::engines::e1_run::setup_ops(&users, &mut rng) {
+            let _ = o.step(&op, &mut scratch);
+        }
+    }
     // ... and a contract that panics in execute, query and sudo (caught here, as a test would)
     let _ = panicking_calls(&mut f.app);
     let _ = crate::puppet::take_trace();
